@@ -238,7 +238,13 @@ def gen_overrides(rng, names, n):
             else:
                 default = " = " + {"bool": "true", "i32": "-3", "u32": "4u", "f32": "0.5"}[ty]
                 dflt = {"lit": {"bool": True, "i32": -3, "u32": 4, "f32": 0.5}[ty]}
-        lines.append("%soverride %s: %s%s;" % ("@id(%d) " % oid if has_id else "", name, ty, default))
+        spelled = ty
+        if rng.random() < 0.15:
+            # the type spelled through a WGSL alias that nothing else in the module uses
+            spelled = {"bool": "OvFlag", "i32": "OvCount", "u32": "OvIndex", "f32": "OvReal"}[ty]
+            if ("alias %s = %s;" % (spelled, ty)) not in lines:
+                lines.insert(0, "alias %s = %s;" % (spelled, ty))
+        lines.append("%soverride %s: %s%s;" % ("@id(%d) " % oid if has_id else "", name, spelled, default))
         truth.append({"name": name, "ty": ty, "id": oid, "default": has_default, "dflt": dflt})
         prev.append((name, ty))
     return lines, truth
